@@ -8,6 +8,19 @@ set_option linter.unusedSimpArgs false
 namespace Hyp.Score
 open Hyp Hyp.SetOps Hyp.SetSpec
 
+-- for any BM25 parameters (`Score.Bm25`: `K1`, `B` of the scoring loop, `K1` of `query_weight`)
+variable [Bm25 ℝ]
+
+/-- the parameter ranges the bound needs: `K1 ≥ 0` and `0 ≤ B ≤ 1` (what the class body of `OkapiIndex`
+asserts of its own values) for the scoring loop, and `query_weight` reading a `K1` that is not smaller
+than the loop's (it reads the same attribute in the pure-Python loop; the compiled loop keeps 1.2 whatever
+the attribute says) -/
+class Bm25Ok : Prop where
+  k1_nonneg : (0 : ℝ) ≤ Bm25.k1
+  b_nonneg : (0 : ℝ) ≤ Bm25.b
+  b_le_one : (Bm25.b : ℝ) ≤ 1
+  k1_le_kq : (Bm25.k1 : ℝ) ≤ Bm25.kq
+
 /-- `0 < v ≤ B` for every stored value -/
 def Bounded (m : WMap ℝ) (B : ℝ) : Prop := ∀ d v, AMap.get m d = some v → 0 < v ∧ v ≤ B
 
@@ -52,40 +65,42 @@ theorem idf_pos (T : Table) (t : Nat) (h : 0 < ScoreSpec.df T t) : (0 : ℝ) < S
   have : (0 : ℝ) < (ScoreSpec.N T : ℝ) / (ScoreSpec.df T t : ℝ) := div_pos h1 h2
   push_cast; linarith
 
-/-- `0 < TF(D,t) < k1 + 1` for a term of the document -/
+variable [Bm25Ok]
+
+/-- `0 < TF(D,t) ≤ k1 + 1` for a term of the document (strictly below for `k1 > 0`) -/
 theorem okapiTF_bounds (T : Table) (hd : AMap.get T d = some ws) (ht : t ∈ ws) :
-    (0 : ℝ) < ScoreSpec.okapiTF T ws t ∧ (ScoreSpec.okapiTF T ws t : ℝ) < ScoreSpec.k1 + Scalar.nat 1 := by
+    (0 : ℝ) < ScoreSpec.okapiTF T ws t ∧ (ScoreSpec.okapiTF T ws t : ℝ) ≤ ScoreSpec.k1 + Scalar.nat 1 := by
   have hf : 0 < ws.count t := List.count_pos_iff.mpr ht
   have hf' : (0 : ℝ) < (ws.count t : ℝ) := by exact_mod_cast hf
-  have hlen : 0 < ws.length := List.length_pos_of_mem ht
   have hN : (0 : ℝ) < (ScoreSpec.N T : ℝ) := by exact_mod_cast N_pos_of_get hd
   have htl : (0 : ℝ) < (ScoreSpec.totalLen T : ℝ) := by
     have := tl_ge_of_get hd
+    have hlen : 0 < ws.length := List.length_pos_of_mem ht
     rw [totalLen_eq]
     have : 0 < tl T := by omega
     exact_mod_cast this
   have hmean : (0 : ℝ) < ScoreSpec.meanLen T := by
     unfold ScoreSpec.meanLen; simp only [Scalar.nat_real]; exact div_pos htl hN
+  have hk : (0 : ℝ) ≤ Bm25.k1 := Bm25Ok.k1_nonneg
+  have hb0 : (0 : ℝ) ≤ Bm25.b := Bm25Ok.b_nonneg
+  have hb1 : (Bm25.b : ℝ) ≤ 1 := Bm25Ok.b_le_one
   unfold ScoreSpec.okapiTF ScoreSpec.k1 ScoreSpec.b
-  simp only [Scalar.nat_real]
+  simp only [Scalar.nat_real, Nat.cast_one]
   set f : ℝ := (ws.count t : ℝ)
   set m : ℝ := ScoreSpec.meanLen T
+  set k : ℝ := Bm25.k1
+  set b : ℝ := Bm25.b
   have hl : (0 : ℝ) ≤ (ws.length : ℝ) := by positivity
-  have hq : (0 : ℝ) ≤ ((3 : ℕ) : ℝ) / ((4 : ℕ) : ℝ) * (ws.length : ℝ) / m := by positivity
-  have hlw : (0 : ℝ) < ((1 : ℕ) : ℝ) - ((3 : ℕ) : ℝ) / ((4 : ℕ) : ℝ) + ((3 : ℕ) : ℝ) / ((4 : ℕ) : ℝ) * (ws.length : ℝ) / m := by
-    norm_num at hq ⊢; linarith
-  have hk : (0 : ℝ) < ((12 : ℕ) : ℝ) / ((10 : ℕ) : ℝ) := by norm_num
-  have hD : (0 : ℝ) < f + ((12 : ℕ) : ℝ) / ((10 : ℕ) : ℝ) *
-      (((1 : ℕ) : ℝ) - ((3 : ℕ) : ℝ) / ((4 : ℕ) : ℝ) + ((3 : ℕ) : ℝ) / ((4 : ℕ) : ℝ) * (ws.length : ℝ) / m) := by
-    have := mul_pos hk hlw; linarith
+  have hq : (0 : ℝ) ≤ b * (ws.length : ℝ) / m := div_nonneg (mul_nonneg hb0 hl) (le_of_lt hmean)
+  have hlw : (0 : ℝ) ≤ 1 - b + b * (ws.length : ℝ) / m := by linarith
+  have hD : (0 : ℝ) < f + k * (1 - b + b * (ws.length : ℝ) / m) := by
+    have := mul_nonneg hk hlw; linarith
+  have h3 : (0 : ℝ) < k + 1 := by linarith
   constructor
-  · apply div_pos _ hD
-    have : (0 : ℝ) < ((12 : ℕ) : ℝ) / ((10 : ℕ) : ℝ) + ((1 : ℕ) : ℝ) := by norm_num
-    exact mul_pos hf' this
-  · rw [div_lt_iff₀ hD]
-    have h2 := mul_pos hk hlw
-    have h3 : (0 : ℝ) < ((12 : ℕ) : ℝ) / ((10 : ℕ) : ℝ) + ((1 : ℕ) : ℝ) := by norm_num
-    nlinarith [mul_pos h3 h2]
+  · exact div_pos (mul_pos hf' h3) hD
+  · rw [div_le_iff₀ hD]
+    have h2 := mul_nonneg hk hlw
+    nlinarith [mul_nonneg (le_of_lt h3) h2]
 
 /-- the Okapi summand of a term of the document: positive, at most `IDF·(k1+1)` -/
 theorem okapi_term_bounds (T : Table) (hd : AMap.get T d = some ws) (ht : t ∈ ws) :
@@ -98,8 +113,9 @@ theorem okapi_term_bounds (T : Table) (hd : AMap.get T d = some ws) (ht : t ∈ 
   constructor
   · exact mul_pos h1 hi
   · rw [mul_comm]
-    exact mul_le_mul_of_nonneg_left (le_of_lt h2) (le_of_lt hi)
+    exact mul_le_mul_of_nonneg_left h2 (le_of_lt hi)
 
+omit [Bm25Ok] in
 theorem sum_filter_le (l : List Nat) (c p : Nat → Bool) (a b : Nat → ℝ)
     (hcp : ∀ t, c t = true → p t = true) (hab : ∀ t, c t = true → a t ≤ b t)
     (hb : ∀ t, p t = true → 0 ≤ b t) :
@@ -120,6 +136,7 @@ theorem sum_filter_le (l : List Nat) (c p : Nat → Bool) (a b : Nat → ℝ)
         simp only [List.filter_cons, hc, hp, Bool.false_eq_true, if_false]
         exact ih
 
+omit [Bm25Ok] in
 theorem sum_pos_of_pos (l : List ℝ) (hne : l ≠ []) (h : ∀ x ∈ l, 0 < x) : 0 < l.sum := by
   induction l with
   | nil => exact absurd rfl hne
@@ -130,17 +147,25 @@ theorem sum_pos_of_pos (l : List ℝ) (hne : l ≠ []) (h : ∀ x ∈ l, 0 < x) 
     · subst hl; simpa using ha
     · have := ih hl (fun x hx => h x (List.mem_cons_of_mem _ hx)); linarith
 
+omit [Bm25Ok] in
 /-- Okapi `query_weight` as a sum; it is never negative -/
 theorem okapi_qw_eq (T : Table) (wids : List Nat) :
     (ScoreSpec.queryWeight .okapi T wids : ℝ) =
       ((wids.filter (fun t => decide (0 < ScoreSpec.df T t))).map
-        (fun t => ScoreSpec.idf T t * (ScoreSpec.k1 + Scalar.nat 1))).sum := by
+        (fun t => ScoreSpec.idf T t * (ScoreSpec.kq + Scalar.nat 1))).sum := by
   unfold ScoreSpec.queryWeight
   simp only [Scalar.nat_real, Nat.cast_zero]
   rw [foldl_add_real]
 
-theorem k1_plus_one_pos : (0 : ℝ) < ScoreSpec.k1 + Scalar.nat 1 := by
-  unfold ScoreSpec.k1; simp only [Scalar.nat_real]; norm_num
+theorem k1_plus_one_pos : (0 : ℝ) < ScoreSpec.kq + Scalar.nat 1 := by
+  have h1 : (0 : ℝ) ≤ Bm25.k1 := Bm25Ok.k1_nonneg
+  have h2 : (Bm25.k1 : ℝ) ≤ Bm25.kq := Bm25Ok.k1_le_kq
+  unfold ScoreSpec.kq; simp only [Scalar.nat_real, Nat.cast_one]; linarith
+
+/-- the loop's ceiling `k1 + 1` is at most the `kq + 1` that `query_weight` uses -/
+theorem k1_le_kq_plus : (ScoreSpec.k1 + Scalar.nat 1 : ℝ) ≤ ScoreSpec.kq + Scalar.nat 1 := by
+  have h2 : (Bm25.k1 : ℝ) ≤ Bm25.kq := Bm25Ok.k1_le_kq
+  unfold ScoreSpec.kq ScoreSpec.k1; linarith
 
 theorem okapi_qw_nonneg (T : Table) (wids : List Nat) : (0 : ℝ) ≤ ScoreSpec.queryWeight .okapi T wids := by
   rw [okapi_qw_eq]
@@ -150,6 +175,7 @@ theorem okapi_qw_nonneg (T : Table) (wids : List Nat) : (0 : ℝ) ≤ ScoreSpec.
   have := (List.mem_filter.mp ht).2
   exact le_of_lt (mul_pos (idf_pos T t (by simpa using this)) k1_plus_one_pos)
 
+omit [Bm25Ok] in
 theorem okapi_qw_append (T : Table) (a c : List Nat) :
     (ScoreSpec.queryWeight .okapi T (a ++ c) : ℝ) =
       ScoreSpec.queryWeight .okapi T a + ScoreSpec.queryWeight .okapi T c := by
@@ -179,7 +205,10 @@ theorem okapi_score_bounds (T : Table) (wids : List Nat) (d : Int) (v : ℝ)
       · rw [okapi_qw_eq]
         apply sum_filter_le
         · intro t ht; simpa using df_pos_of_get hd (by simpa using ht)
-        · intro t ht; exact (okapi_term_bounds T hd (by simpa using ht)).2
+        · intro t ht
+          have hm : t ∈ ws := by simpa using ht
+          exact le_trans (okapi_term_bounds T hd hm).2
+            (mul_le_mul_of_nonneg_left k1_le_kq_plus (le_of_lt (idf_pos T t (df_pos_of_get hd hm))))
         · intro t ht
           exact le_of_lt (mul_pos (idf_pos T t (by simpa using ht)) k1_plus_one_pos)
 
